@@ -27,6 +27,20 @@ NOTES = {
  "C17-m4": "needed the `tiny_merges` scenario (thousands of one-value digests merged into a large one, k up to 400)",
  "C18-m3": "needed restore through the stream reader", "C18-m4": "needed exact (==) comparison of the merged cumulative weight with the sum",
  "C19-m3": "needed world `c19o` and reading lent operands after the operation", "C19-m4": "needed world `c19o` (operators as lifecycle objects)",
+ # round 4
+ "C03-m5": "needed the `twin_coupons` step (two inputs sharing all 26 address bits, found by a birthday search on the independent hash)",
+ "C05-m6": "needed the `clustered_rows` step (every input in a narrow band of rows) followed by a checkpoint",
+ "C08-m5": "needed read-only query steps between mutations and the rule 'the answered rank is the rank of the retained items'",
+ "C08-m6": "needed REQ classes by the item's true position and the exact-zone scan over merge split points",
+ "C10-m5": "needed redelivery after the version change (everything the writer had seen, offered again to the restored hll/cpc sketch)",
+ "C10-m6": "needed world `c10tq` (t-digest reference-format images synthesised with a non-zero minimum)",
+ "C11-m6": "needed an over-budget verdict for the families whose whole content is in the image (quantile sketches, t-digest; bytes path)",
+ "C12-m5": "needed a floating-point weight type fed fractional weights (`fi<string,double>`)", "C12-m6": "needed objects of different maximum map size and copy assignment between them",
+ "C14-m5": "needed the gate to accept a violation that keeps its fingerprint although the mutated code hashes an address (executions differ)", "C14-m6": "needed the 4-byte weight types (`countmin<u32>`, `countmin<float>`)",
+ "C15-m6": "needed operands that are incompatible by hash count or seed only",
+ "C16-m5": "needed a union that is reset and used again, compared with a fresh one", "C16-m6": "needed the union fed by move compared with the union fed by reference",
+ "C17-m5": "needed the `one_value_then_buffered` scenario (a compress point while the digest holds one value)",
+ "C19-m5": "needed union k up to 64 in the heap world (arrays that have grown before reset)", "C19-m6": "needed the `copy_then_continue_both` step (source and copy fed the same batch under the same draws stay equal)",
  "C20-m3": "needed refusals placed on the capacity boundary and the rule 'a refused operation leaves the observation unchanged'",
 }
 res = {}
